@@ -51,7 +51,7 @@ def run_real(sc, base, timeout=2, fork_on_hang=False, passes=None, mode='each'):
         json.dump({'names': names, 'rules': sc['rules'], 'log': log, 'fork_on_hang': fork_on_hang}, f)
     script = os.path.join(work, 'test.sh')
     with open(script, 'w') as f:
-        f.write('#!/bin/sh\nexec /venv/bin/python /verif/tools/vlib/testscript.py %s\n' % spec)
+        f.write('#!/bin/sh\nexec /venv/bin/python %s %s\n' % (os.path.join(os.path.dirname(os.path.abspath(__file__)), 'testscript.py'), spec))
     os.chmod(script, 0o755)
     o = RealObs()
     o.names, o.work, o.tmpd = names, work, tmpd
